@@ -3,7 +3,13 @@
 The real Dispatcher + modules run under the deterministic scheduler (vlib.sched): request threads `h<cid>` (one per
 connection, a script of activate/deactivate/ident/disconnect) and updater threads `u<k>` (a script of assignments).
 Every explored schedule is (1) replayed label by label on the Lean model (`k: replay`) and compared through the
-observable trace, (2) judged by the Lean monitors (`k: judge`).  Nothing about the property is decided here.
+observable trace, the final cache and the dispatcher's tables after every completed operation, (2) judged by the Lean
+monitors (`k: judge`).  Nothing about the property is decided here.
+
+Two families of schedules: fine-grained ones (non-preempting default + bounded deviations / random walks, at the yield points
+request arrival `recv`, lock acquire / release, send) for short scenarios, and operation-level histories (`SerialPolicy`:
+whole requests / assignments in a given or random global order) for long scenarios, where what one operation leaves behind
+in the tables shows in what a later operation of another thread does.
 """
 import json
 import os
